@@ -350,9 +350,9 @@ def ref_flow(prog, limit=100000):
         if t == 'bin':
             op = e[1]
             a = ev(e[2])
-            if op in ('less', 'greatereq'):
+            if op in ('less', 'greatereq', 'eq'):
                 b = ev(e[3][0])
-                return a < b if op == 'less' else a >= b
+                return a < b if op == 'less' else a >= b if op == 'greatereq' else a == b      # (numbers only)
             ta = ref_truthy(a)
             if op == 'and':
                 return ta and ref_truthy(ev(e[3][0]))
